@@ -219,7 +219,7 @@ def c05_chains(tier, rnd):
             items = [snp()]
             for d, (k, n) in enumerate(ch):
                 if k == "L":
-                    items.append(Open(define=[(False, n, al.call("define", [S("a") if d % 2 == 0 else S("b")]))], sattr=[]))
+                    items.append(Open(define=[(False, n, al.call("define", [S("a") if d % 2 == 0 else S("b")] + ([NONE] if d == 0 else [])))], sattr=[]))
                 elif k == "G":
                     items.append(Open(define=[(True, n, al.call("define", [S("c")]))], sattr=[]))
                 else:
@@ -228,9 +228,12 @@ def c05_chains(tier, rnd):
             for d in range(len(ch)):
                 items.append(CLOSE)
                 items.append(snp())
-            init = {n: S("u0") for n, b in zip(used, ini) if b}
+            # an outer binding may hold any value, None included
+            noneval = (len(progs) % 3 == 0)
+            init = {n: (NONE if noneval else S("u0")) for n, b in zip(used, ini) if b}
             progs.append(program(items, al.dom, init=init,
-                                 fam="C05.chain:" + "/".join(k + ":" + n for k, n in ch) + " init=" + ",".join(sorted(init))))
+                                 fam="C05.chain:" + "/".join(k + ":" + n for k, n in ch) + " init=" + ",".join(sorted(init))
+                                 + (" (None)" if noneval else "")))
     return progs, pool
 
 
